@@ -20,6 +20,7 @@ RULE = (
     "(tick, timestamp) pairs of all events plus the query are merged and checked; end >= start per "
     "note. Non-trivial iff the compared ticks span >= 2 tempo segments; distinct = distinct "
     "(resolution, tempo map, tick list)."
+    ' Every chart is also parsed with its star-power lines, track-event lines and global events in reverse order; if that is accepted the same relations are judged.'
 )
 ASSUMPTIONS = [
     "times below 10^6 s (same domain as C01) so that float error cannot defeat the 2 us strictness margin",
